@@ -58,8 +58,8 @@ def cmd_of(a, k):
 def t1(ctx, exe, names, page, cap=None):
     lines, scripts, mismatching = [], [], set()
     rnd = random.Random(ctx.seed + 49)
-    for name in names:
-        edges, r = adtb.tlc_edges(ctx, MC, edge_cfg(name), 'edges_' + name)
+    dumps = adtb.tlc_edges_many(ctx, MC, [('edges_' + n, edge_cfg(n)) for n in names])
+    for name, (edges, r) in zip(names, dumps):
         m = re.search(r'Page = (\d+)', edge_cfg(name))
         k = page // int(m.group(1))          # bytes per model unit
         todo, nstates = adtb.edge_paths(edges, lambda s: s['nodes'] == [] and s['nextW'] == 1)
@@ -170,8 +170,7 @@ def run(ctx):
     ctx.cov['contig_false'] = sum(1 for e in evs if e['e'] == 'Contig' and not e['ret'])
     ctx.cov['frees_removing_nodes'] = sum(1 for l in lines for a, b in zip(l['ev'], l['ev'][1:]) if b['e'] == 'Free' and len(b['nodes']) < len(a.get('nodes', [])))
     # 4. TLC decides
-    rejP, reached = adtb.validate(ctx, TP, TP_CFG, lines, 'c49-P', chunk=1500)
-    rejI, _ = adtb.validate(ctx, TI, TI_CFG, lines, 'c49-I', chunk=1500, count=False)
+    rejP, reached, rejI = adtb.validate_both(ctx, (TP, TP_CFG), (TI, TI_CFG), lines, 'c49', chunk=1400)
     ctx.log('TLC validated %d histories (%d edge replays, %d random): P-rejected %d, I-rejected %d' % (
         len(lines), n_t1, len(hs), len(rejP), len(rejI)))
     for i in rejP:
